@@ -1589,7 +1589,15 @@ def trace(case, judge=True):
         for i, op in enumerate(case["ops"]):
             im.step = pre + i
             im.opname = repr(op)[:200]
+            composite = op[0] == "x"
+            if composite:
+                # a composition of several changes that requests representations in between (e.g.
+                # correctContourDirection): 'once between two changes' is judged up to its start only
+                im.check_runs(_site(op))
+                im.interval = {}
             r = im.do(op)
+            if composite:
+                im.interval = {}
             if r is None:
                 im.bump("skipped")
                 im.lines.append([Atom("skip")])
